@@ -40,7 +40,7 @@ def check(ctx):
     m1.caught("SwD3", "C06_quick.cfg")
     traces = anngen.run(ctx.seed, ctx.pick(360, 6000), ctx.pick(8, 12), INSTS, list("ABDF"), tag="c06",
                         with_sub=True, with_find=False, stop_twice=False)
-    bad, ms = judge(ctx, "Mon_C06", traces + long_ttl_traces() + anngen.sub_lifecycle_family(), "subscribe histories", anngen.payload)
+    bad, ms = judge(ctx, "Mon_C06", traces + long_ttl_traces() + anngen.sub_lifecycle_family() + anngen.shared_eventgroup_family(), "subscribe histories", anngen.payload)
     sim = anngen.spec_to_code_ann(ctx, "Mon_C06", "C06_A", "C06_Inputs", "A", ["I1"], ["I1"], ctx.pick(20, 300))
     acc, total = anngen.conform_by_variant(ctx, traces, ctx.pick(100, 1000))
     cov = dict(states=m1.states, transitions=m1.trans, traces_validated_against_impl=acc, monitor_traces=len(traces),
